@@ -1,12 +1,12 @@
 #!/bin/bash
-# usage: trybenign.sh <name (file under seeded/benign without .diff)> <Cxx> ... ; applies to the scratch clone /tmp/bt/repo
+# usage: trybenign.sh <name (file under seeded/benign without .diff)> <Cxx> ... ; applies to the scratch clone ${BT:-/tmp/bt}/repo
 set -u
 N=$1; shift
-mkdir -p /tmp/bt; [ -d /tmp/bt/repo ] || git clone -q /repo /tmp/bt/repo
-cd /tmp/bt/repo && git checkout -q -- . && git clean -fdq && git apply /verif/seeded/benign/$N.diff || exit 3
+mkdir -p ${BT:-/tmp/bt}; [ -d ${BT:-/tmp/bt}/repo ] || git clone -q /repo ${BT:-/tmp/bt}/repo
+cd ${BT:-/tmp/bt}/repo && git checkout -q -- . && git clean -fdq && git apply /verif/seeded/benign/$N.diff || exit 3
 cd /verif
 for c in "$@"; do
-  out=$(RUSTUN_REPO=/tmp/bt/repo VERIF_OUT_DIR=/tmp/bt/out VERIF_TARGET_DIR=/tmp/bt/target ./bin/verif check $c 2>&1)
+  out=$(RUSTUN_REPO=${BT:-/tmp/bt}/repo VERIF_OUT_DIR=${BT:-/tmp/bt}/out VERIF_TARGET_DIR=${BT:-/tmp/bt}/target ./bin/verif check $c 2>&1)
   echo "== $N $c: $(echo "$out" | tail -1)"
   echo "$out" | grep -E "^  rule" | cut -c1-${TRY_W:-420} | head -${TRY_LINES:-4}
 done
